@@ -55,6 +55,8 @@ SPEC_MUTANTS = [
      "  /\\ IF GRDone(SrcState(r))\n     THEN rd' = [rd EXCEPT ![r].pc = \"closed\"]", ["NoEarlyEnd", "CloseOnlyWhenFinal"]),
     ("spec_size_check_gt", "  /\\ IF GRDone(SrcState(r)) /\\ rd[r].pos >= SrcStatSize(r)\n     THEN rd' = [rd EXCEPT ![r].pc = \"closed\"]",
      "  /\\ IF GRDone(SrcState(r)) /\\ rd[r].pos > SrcStatSize(r)\n     THEN rd' = [rd EXCEPT ![r].pc = \"closed\"]", ["EndsWhenDone", "temporal"]),
+    ("spec_eof_check_uses_file_size", "  /\\ IF GRDone(SrcState(r)) /\\ rd[r].pos >= SrcStatSize(r)\n     THEN rd' = [rd EXCEPT ![r].pc = \"closed\"]",
+     "  /\\ IF GRDone(SrcState(r)) /\\ rd[r].pos >= SrcSize(r)\n     THEN rd' = [rd EXCEPT ![r].pc = \"closed\"]", ["NoEarlyEnd", "CloseOnlyWhenFinal"], "Results_alq.cfg"),
     ("spec_start_offset_plus_one", "rd' = [rd EXCEPT ![r] = [pc |-> \"wait\", p |-> p, pos |-> p, sent |-> <<>>]]",
      "rd' = [rd EXCEPT ![r] = [pc |-> \"wait\", p |-> p, pos |-> p + 1, sent |-> <<>>]]", ["NoGapNoRepeat"]),
     ("spec_mirror_request_from_zero", "     ELSE IF disk < aSize THEN pcO' = \"connect\" /\\ reqFrom' = disk", "     ELSE IF disk < aSize THEN pcO' = \"connect\" /\\ reqFrom' = 0", ["MirrorPrefix", "NoGapNoRepeat"]),
@@ -66,10 +68,10 @@ def spec_mutants(base):
     """Each mutant of Results.tla must be refuted by TLC on the quick configuration."""
     rows = []
     src = open(os.path.join(vlib.SPECS, "Results.tla")).read()
-    cfg = open(os.path.join(vlib.SPECS, "Results_quick.cfg")).read().replace('"local_vectors.ndjson"', '""').replace('"fault_schedules.ndjson"', '""')
-    for name, old, new, expect in SPEC_MUTANTS:
-        if old is None:
-            continue
+    base_cfg = open(os.path.join(vlib.SPECS, "Results_quick.cfg")).read().replace('"local_vectors.ndjson"', '""').replace('"fault_schedules.ndjson"', '""')
+    for row in SPEC_MUTANTS:
+        name, old, new, expect = row[:4]
+        cfg = open(os.path.join(vlib.SPECS, row[4])).read() if len(row) > 4 else base_cfg
         if src.count(old) != 1:
             rows.append((name, "NOT-APPLICABLE", "pattern found %d times" % src.count(old)))
             continue
@@ -81,7 +83,7 @@ def spec_mutants(base):
                             "-workers", "8", "-deadlock", "Results"], cwd=d, stdout=subprocess.PIPE, stderr=subprocess.STDOUT, text=True, timeout=1800)
         import re
         m = re.search(r"Error: Invariant (\S+) is violated", p.stdout) or re.search(r"Error: Action property (\S+) is violated", p.stdout) \
-            or re.search(r"Error: Temporal property (\S+) was violated", p.stdout) or re.search(r"Error: (Temporal) properties were violated", p.stdout)
+            or re.search(r"Error: Temporal propert(?:y|ies) (.+?) (?:was|were) violated", p.stdout) or re.search(r"Error: (Temporal) properties were violated", p.stdout)
         got = m.group(1) if m else None
         rows.append((name, "REFUTED" if got else "NOT-REFUTED", "violated: %s (expected one of %s)" % (got, expect)))
         print(rows[-1], flush=True)
